@@ -263,3 +263,10 @@ Theorem c17_el_partitioned_stops : forall cfg, NoDup (cfg_nodes cfg) -> forall s
   (2 * (1 + length reach) <= length (cfg_nodes cfg) -> dispatch cfg s' n = Err502).
 Proof. exact partitioned_stops. Qed.
 Print Assumptions c17_el_partitioned_stops.
+
+(* FINDING 3: the healthCheck case can kill the run goroutine (nil dereference in
+   gcProxySessions) when the leader's node list does not contain the receiver
+   and rehashSkipped is still set from an earlier episode *)
+Theorem c17_el_health_never_panics_refuted : ~ health_never_panics_statement cfg3.
+Proof. exact health_never_panics_refuted. Qed.
+Print Assumptions c17_el_health_never_panics_refuted.
